@@ -821,6 +821,40 @@ def dangling_fields(P, R, rule='C14.OWN.2'):
     R.floor(rule, 3, 'locals released in the configuration unit')
 
 
+WIDE = ('long', 'unsigned long', 'size_t', '__off_t', 'off_t', 'ssize_t', 'long long', 'unsigned long long', 'uintmax_t', 'intmax_t', 'int64_t', 'uint64_t', '__off64_t')
+NARROW = ('unsigned int', 'int', 'unsigned', 'uint32_t', 'int32_t', 'unsigned short', 'short')
+
+
+def sizes_not_narrowed(P, R, rule='C14.BND.7'):
+    """The size of a file is 64 bits wide; the allocator of this program takes 32.  Where a wide quantity that comes from
+    outside (a member of a `struct stat`, the result of a read) is handed to a narrower parameter in the configuration
+    unit, a test on the way to the call bounds it from above - otherwise a 4 GiB file asks for a 2-byte block and the read
+    writes 4 GiB into it."""
+    unit = P.need_fn('conf_read').unit
+    n = 0
+    for f in P.unit_fns(unit):
+        for s in f.calls():
+            ts = P.callees(s, False)
+            if not ts:
+                continue
+            pi = ts[0].param_info
+            for i, a in enumerate(s.ev['args']):
+                if i >= len(pi) or not isinstance(a, dict):
+                    continue
+                at = a.get('ty') or a.get('t')
+                if at not in WIDE or pi[i].get('t') not in NARROW:
+                    continue
+                srcs = [x for x in walk(a) if x.get('k') == 'mem' and x.get('rec') == 'stat']
+                if not srcs:
+                    continue
+                gs = f.guards(s.bid)
+                bounded = all(any(isinstance(g[0], dict) and sx(g[0]) == sx(x) and g[1] in ('<', '<=') for g in gs) or
+                              any(isinstance(g[2], dict) and sx(g[2]) == sx(x) and g[1] in ('>', '>=') for g in gs) for x in srcs)
+                n += 1
+                R.ob(rule, bounded, s, 'in %s the %s value %s is known to fit before it is handed to the %s parameter of %s' % (f.name, at, sx(a), pi[i].get('t'), ts[0].name), key='narrowed-size:%s:%s' % (f.name, ts[0].name))
+    R.floor(rule, 1, 'file sizes handed to the allocator')
+
+
 def table_subscripts(P, R, rule='C14.BND.6'):
     """Every look-up in a fixed-size table made while a file (or a typed value from it) is parsed stays inside the table,
     whatever bytes the text holds: a table indexed by a character is read at an index the numeric analysis can bound on
@@ -1060,4 +1094,5 @@ def run(P, R, tier):
     # a list in the file is appended to item by item: the vector it grows in really grows
     rules.vector_growth(P, R, 'C14.BND.5')
     table_subscripts(P, R)
+    sizes_not_narrowed(P, R)
     return EXPLANATION, ASSUMPTIONS
